@@ -1,1 +1,335 @@
-# stub
+"""
+Checks for the prediction properties C09-C12.
+"""
+import itertools, math, random
+import core
+from core import (KINDS, MODEL_CLS, make_game, build_model, build_teams, teams_tokens, f2h, h2f, size, Driver, describe)
+import gen
+from gen import gen_teams, gen_config
+from props import register
+
+
+def pred_game(rng, kind=None, stratum=None, n=None, maxsize=8):
+    kind = kind or rng.choice(KINDS)
+    beta, kappa, tau = gen_config(rng)
+    stratum = stratum or rng.choice(["typical", "typical", "wide", "corners", "mismatch", "identical", "equalsize", "tiny-sigma"])
+    if stratum == "tiny-sigma":
+        n = n or rng.randint(2, 4)
+        teams = [[(rng.gauss(25, 2) * beta / core.DEFAULTS["beta"], 1e-4 * beta) for _ in range(rng.randint(1, 2))] for _ in range(n)]
+    else:
+        teams = gen_teams(rng, stratum, beta, n=n, maxsize=maxsize)
+    if stratum == "identical" and rng.random() < 0.5 and len(teams) > 2:
+        # only some of the teams identical
+        teams[-1] = [(m + beta, s) for (m, s) in teams[-1]]
+    return make_game(kind, teams, beta=beta, kappa=kappa, tau=tau)
+
+
+def pred_lines(g):
+    t = " ".join(teams_tokens(g["teams"]))
+    b = f2h(g["beta"])
+    return ["PWIN %s %s" % (b, t), "PDRAW %s %s" % (b, t), "PRANK %s %s" % (b, t)]
+
+
+def parse_pred(lines):
+    w = [h2f(x) for x in lines[0].split(" ")[1:]]
+    d = h2f(lines[1].split(" ")[1])
+    r = []
+    for tok in lines[2].split(" ")[1:]:
+        a, b = tok.split(":")
+        r.append((int(a), h2f(b)))
+    return w, d, r
+
+
+def impl_pred(g, cls=None):
+    model = build_model(g, cls)
+    teams = build_teams(model, g)
+    return model.predict_win(teams), model.predict_draw(teams), model.predict_rank(teams)
+
+
+def corr_pred(res, games, kind_on_mismatch, label, which=("win", "draw", "rank")):
+    drv = Driver()
+    lines = []
+    for g in games:
+        lines += pred_lines(g)
+    outs = drv.run(lines)
+    for k, g in enumerate(games):
+        inp = dict(type="pred", game=g)
+        try:
+            w, d, r = impl_pred(g)
+        except Exception as e:  # noqa: BLE001
+            res.fail("property", "%s: a predict operation raised %s: %s" % (label, type(e).__name__, e), inp)
+            continue
+        mw, md, mr = parse_pred(outs[3 * k:3 * k + 3])
+        res.traces += 1
+        if "win" in which:
+            if len(w) != len(mw) or any(not abs(a - b) <= 1e-9 for a, b in zip(w, mw)):
+                res.fail(kind_on_mismatch, "%s: predict_win %r differs from the model %r" % (label, w, mw), inp)
+        if "draw" in which:
+            if not abs(d - md) <= 1e-9:
+                res.fail(kind_on_mismatch, "%s: predict_draw %r differs from the model %r" % (label, d, md), inp)
+        if "rank" in which:
+            if len(r) != len(mr) or any(not abs(a[1] - b[1]) <= 1e-9 for a, b in zip(r, mr)):
+                res.fail(kind_on_mismatch, "%s: predict_rank probabilities %r differ from the model %r" % (label, r, mr), inp)
+            else:
+                # integer ranks are compared when the probabilities are separated (or exactly tied on both sides)
+                ps = [p for (_, p) in r]
+                mps = [p for (_, p) in mr]
+                safe = all((ps[a] == ps[b] and mps[a] == mps[b]) or abs(ps[a] - ps[b]) > 1e-8
+                           for a in range(len(ps)) for b in range(a + 1, len(ps)))
+                if safe and [a for (a, _) in r] != [a for (a, _) in mr]:
+                    res.fail(kind_on_mismatch, "%s: predict_rank ranks %r differ from the model %r" % (label, r, mr), inp)
+
+
+def permuted(g, perm, rng=None):
+    g2 = dict(g)
+    teams = [list(g["teams"][p]) for p in perm]
+    if rng is not None:
+        for t in teams:
+            rng.shuffle(t)
+    g2["teams"] = teams
+    return g2
+
+
+# =============================================================================== C09
+def c09_one(res, g, rng):
+    inp = dict(type="pred", game=g)
+    n = len(g["teams"])
+    try:
+        w = impl_pred(g)[0]
+    except Exception as e:  # noqa: BLE001
+        res.fail("property", "C09: predict_win raised %s" % type(e).__name__, inp)
+        return
+    if len(w) != n:
+        res.fail("property", "C09: predict_win returned %d numbers for %d teams" % (len(w), n), inp); return
+    if any(not (-1e-15 <= x <= 1 + 1e-15) for x in w):
+        res.fail("property", "C09: predict_win value outside [0,1]: %r" % (w,), inp); return
+    if abs(math.fsum(w) - 1) > 1e-9:
+        res.fail("property", "C09: predict_win sums to %r" % math.fsum(w), inp)
+    # permutations
+    perms = list(itertools.permutations(range(n))) if n <= 3 else []
+    for _ in range(3):
+        p = list(range(n)); rng.shuffle(p); perms.append(tuple(p))
+    for perm in perms:
+        w2 = impl_pred(permuted(g, perm, rng))[0]
+        res.count("permutations")
+        if any(abs(w2[k] - w[p]) > 1e-10 for k, p in enumerate(perm)):
+            res.fail("property", "C09: permuting the teams by %s does not permute predict_win: %r vs %r" % (perm, w, w2),
+                     dict(type="pred", game=g, perm=list(perm)))
+            break
+    # identical teams
+    for a in range(n):
+        for b in range(a + 1, n):
+            if g["teams"][a] == g["teams"][b]:
+                res.count("identical_pairs")
+                if abs(w[a] - w[b]) > 1e-12:
+                    res.fail("property", "C09: identical teams %d and %d get %r and %r" % (a, b, w[a], w[b]), inp)
+    if n == 2 and g["teams"][0] == g["teams"][1]:
+        res.count("two_identical")
+        if w != [0.5, 0.5]:
+            res.fail("property", "C09: two identical teams get %r, not exactly one half each" % (w,), inp)
+    # monotone in any member's mu
+    for _ in range(3):
+        i = rng.randrange(n); j = rng.randrange(len(g["teams"][i]))
+        step = g["beta"] * 10 ** rng.uniform(-6, 1.3)
+        g2 = dict(g); g2["teams"] = [list(t) for t in g["teams"]]
+        m, s = g2["teams"][i][j]
+        g2["teams"][i][j] = (m + step, s)
+        w2 = impl_pred(g2)[0]
+        res.count("increments")
+        if w2[i] < w[i] - 1e-13:
+            res.fail("property", "C09: raising mu of [%d][%d] by %r lowers its team's win probability %r -> %r" % (i, j, step, w[i], w2[i]),
+                     dict(type="pred", game=g, inc=[i, j, step]))
+        for q in range(n):
+            if q != i and w2[q] > w[q] + 1e-13:
+                res.fail("property", "C09: raising mu of [%d][%d] by %r raises team %d's win probability %r -> %r" % (i, j, step, q, w[q], w2[q]),
+                         dict(type="pred", game=g, inc=[i, j, step]))
+
+
+def c09_item(res, item):
+    rng = random.Random(res.seed)
+    g = item["game"]
+    res.case(g)
+    c09_one(res, g, rng)
+    corr_pred(res, [g], "correspondence", "C09", which=("win",))
+
+
+def c09(res):
+    rng = random.Random(res.seed)
+    games = []
+    for _ in range(size(res, 700, 5000)):
+        g = pred_game(rng)
+        res.case(g); describe(res, g)
+        c09_one(res, g, rng)
+        games.append(g)
+    for kind in KINDS:      # two identical teams, every model
+        for sz in (1, 2, 5):
+            t = [(rng.gauss(25, 8), rng.uniform(0.5, 9)) for _ in range(sz)]
+            g = make_game(kind, [list(t), list(t)])
+            res.case(g); c09_one(res, g, rng); games.append(g)
+    corr_pred(res, games, "correspondence", "C09", which=("win",))
+    res.rule = ("predict_win on the implementation: length, range, sum 1 (1e-9), permutation equivariance (all n! for n<=3, sampled above), "
+                "identical teams, exactly one half for two identical teams, monotonicity under single-player mu increments over a geometric "
+                "ladder of step sizes 1e-6..20 beta; numbers also compared with the Lean model (1e-9 abs)")
+
+
+register("C09", c09, c09_item)
+
+
+# =============================================================================== C10
+def c10_one(res, g, rng):
+    inp = dict(type="pred", game=g)
+    n = len(g["teams"])
+    try:
+        d = impl_pred(g)[1]
+    except Exception as e:  # noqa: BLE001
+        res.fail("property", "C10: predict_draw raised %s" % type(e).__name__, inp)
+        return
+    if not (-1e-12 <= d <= 1 + 1e-12):
+        res.fail("property", "C10: predict_draw = %r is outside [0, 1]" % d, inp)
+        return
+    for _ in range(3):
+        p = list(range(n)); rng.shuffle(p)
+        d2 = impl_pred(permuted(g, p, rng))[1]
+        res.count("reorderings")
+        if abs(d2 - d) > 1e-10:
+            res.fail("property", "C10: predict_draw depends on the order of teams/players: %r vs %r (order %s)" % (d, d2, p),
+                     dict(type="pred", game=g, perm=p))
+    if n == 2:
+        # never increases as the gap widens
+        th = [sum(m for (m, _) in t) for t in g["teams"]]
+        hi = 0 if th[0] >= th[1] else 1
+        prev = d
+        for k in range(6):
+            step = g["beta"] * 10 ** rng.uniform(-4, 1)
+            g2 = dict(g); g2["teams"] = [list(t) for t in g["teams"]]
+            m, s = g2["teams"][hi][0]
+            g2["teams"][hi][0] = (m + step, s)
+            d2 = impl_pred(g2)[1]
+            res.count("gap_steps")
+            if d2 > prev + 1e-13:
+                res.fail("property", "C10: two teams: widening the gap by %r raises predict_draw %r -> %r" % (step, prev, d2),
+                         dict(type="pred", game=g2))
+                break
+            g, prev = g2, d2
+    else:
+        # equalising all team totals never lowers it
+        th = [sum(m for (m, _) in t) for t in g["teams"]]
+        target = sum(th) / n
+        g2 = dict(g); g2["teams"] = [list(t) for t in g["teams"]]
+        for i in range(n):
+            sz = len(g2["teams"][i])
+            g2["teams"][i] = [(target / sz, s) for (_, s) in g2["teams"][i]]
+        d2 = impl_pred(g2)[1]
+        res.count("equalised")
+        if d2 < d - 1e-12:
+            res.fail("property", "C10: equalising all teams' total mu lowers predict_draw %r -> %r" % (d, d2), inp)
+
+
+def c10_item(res, item):
+    rng = random.Random(res.seed)
+    g = item["game"]
+    res.case(g)
+    c10_one(res, g, rng)
+    corr_pred(res, [g], "correspondence", "C10", which=("draw",))
+
+
+def c10(res):
+    rng = random.Random(res.seed)
+    games = []
+    for _ in range(size(res, 900, 6000)):
+        g = pred_game(rng, n=2 if rng.random() < 0.35 else None, maxsize=rng.choice([2, 8, 8, 16]))
+        res.case(g); describe(res, g)
+        c10_one(res, g, rng)
+        games.append(g)
+    # N = 2 and sigma -> 0: value 1 up to rounding
+    for kind in KINDS:
+        for sg in (1e-4, 1e-8, 0.0, 1.0):
+            g = make_game(kind, [[(25.0, sg)], [(25.0, sg)]])
+            res.case(g); c10_one(res, g, rng); games.append(g)
+    corr_pred(res, games, "correspondence", "C10", which=("draw",))
+    res.rule = ("predict_draw on the implementation: range [0,1] (1e-12 slack), independence of team and player order, two teams: "
+                "non-increasing along a ladder of widening gaps, n teams: equalised copy not lower; incl. N=2 with sigma->0 and teams of up "
+                "to 16; numbers also compared with the Lean model (1e-9 abs)")
+
+
+register("C10", c10, c10_item)
+
+
+# =============================================================================== C11
+def c11_one(res, g):
+    inp = dict(type="pred", game=g)
+    n = len(g["teams"])
+    try:
+        w, d, r = impl_pred(g)
+    except Exception as e:  # noqa: BLE001
+        res.fail("property", "C11: predict_rank raised %s" % type(e).__name__, inp)
+        return
+    if len(r) != n or any(len(x) != 2 for x in r):
+        res.fail("property", "C11: predict_rank returned %r for %d teams" % (r, n), inp); return
+    ranks = [x[0] for x in r]; ps = [x[1] for x in r]
+    if any(not (isinstance(k, int) and 1 <= k <= n) for k in ranks):
+        res.fail("property", "C11: ranks %r are not integers in 1..%d" % (ranks, n), inp); return
+    if any(not (-1e-15 <= p <= 1 + 1e-15) for p in ps):
+        res.fail("property", "C11: probabilities %r outside [0,1]" % (ps,), inp); return
+    for a in range(n):
+        for b in range(n):
+            if ps[a] > ps[b] and not ranks[a] < ranks[b]:
+                res.fail("property", "C11: team %d has the larger probability (%r > %r) but rank %d vs %d" % (a, ps[a], ps[b], ranks[a], ranks[b]), inp); return
+            if ps[a] == ps[b] and ranks[a] != ranks[b]:
+                res.fail("property", "C11: equal probabilities %r but ranks %d and %d" % (ps[a], ranks[a], ranks[b]), inp); return
+    if ranks[max(range(n), key=lambda k: ps[k])] != 1:
+        res.fail("property", "C11: the most likely team does not have rank 1: %r" % (r,), inp); return
+    if len(set(ps)) < n:
+        res.count("probability_ties")
+    if n >= 3:
+        tot = math.fsum(ps) + d
+        res.count("sum_checked")
+        if abs(tot - 1) > 1e-9:
+            res.fail("property", "C11: predict_rank probabilities + predict_draw = %r, not 1" % tot, inp)
+
+
+def c11_item(res, item):
+    g = item["game"]
+    res.case(g)
+    c11_one(res, g)
+    corr_pred(res, [g], "correspondence", "C11", which=("rank", "draw"))
+
+
+def c11(res):
+    rng = random.Random(res.seed)
+    games = []
+    for _ in range(size(res, 1500, 10000)):
+        g = pred_game(rng)
+        res.case(g); describe(res, g)
+        c11_one(res, g)
+        games.append(g)
+    corr_pred(res, games, "correspondence", "C11", which=("rank", "draw"))
+    res.rule = ("predict_rank on the implementation: one pair per team, probabilities in [0,1], integer ranks in 1..n consistent with the "
+                "probabilities (strict, ties, best = 1), n>=3: probabilities + predict_draw = 1 (1e-9); incl. exactly identical teams; "
+                "numbers and (where separated) ranks also compared with the Lean model")
+
+
+register("C11", c11, c11_item)
+
+
+# =============================================================================== C12
+def c12_item(res, item):
+    g = item["game"]
+    res.case(g)
+    corr_pred(res, [g], "property", "C12 closed forms")
+
+
+def c12(res):
+    rng = random.Random(res.seed)
+    games = []
+    for _ in range(size(res, 2500, 15000)):
+        g = pred_game(rng, maxsize=rng.choice([4, 8]))
+        res.case(g); describe(res, g)
+        games.append(g)
+    corr_pred(res, games, "property", "C12 closed forms")
+    res.rule = ("predict_win / predict_draw / predict_rank on the implementation against the Lean model evaluated at Float with its own "
+                "erfc-based Phi and bisection/Newton Phi^-1 (independent of CPython's NormalDist), 1e-9 absolute; the model is proved equal "
+                "to the documented closed forms (theorems R5)")
+
+
+register("C12", c12, c12_item)
